@@ -19,7 +19,7 @@ returns every entry for requeueing; each step of retire_extents poisons on error
 ensure_writable dominates every raw write / fsync; write_indeterminate is only set by the reviewed functions; the worker's
 error reaches force_flush's caller and flush_all. Not decided: the recovered state after a given fault sequence.
 """
-DECIDED = ["a scrubbed run is released with the sum of its members' own extent lengths", "no discarded storage error", "failure arms reach scrub / quarantine / poison and requeue all entries",
+DECIDED = ['every flush round asks every worker, so a failing background batch cannot be missed (shared with C02.ack/force_flush)', "a scrubbed run is released with the sum of its members' own extent lengths", "no discarded storage error", "failure arms reach scrub / quarantine / poison and requeue all entries",
            "poisoned device is unwritable", "errors propagate to flush()",
            'two-slot journal position: every journal writer records its slot; position advances only after write + fsync (shared with C04.position)',
            'every prepared write of a failed batch is requeued (whole drain, whole clean-up)',
@@ -255,7 +255,8 @@ def check_contain(ctx):
     body = ctx.fn("write_buffer::flush_pending_deletions", inst)
     if body is not None:
         pd = ctx.sites(body, R.call("write_buffer::process_deletions"), inst, exact=1)
-        ext = ctx.sites(body, R.call("Extend::extend").filter(lambda b, n: b.nodes[n.id].ev and R.recv_expr(b, n).has_field("RetirementQueue", "pending"), "pending.extend"), inst, exact=1)
+        from rules.common import pending_queue_ops
+        ext = ctx.sites(body, R.Sel(pending_queue_ops, "pending.extend"), inst, exact=1)
         # retries go back to the pending queue whatever process_deletions returned (no `?` between)
         for p in pd:
             r, ps = A.reach(body, A.succs(body, p), blocked_nodes=set(ext),
@@ -335,6 +336,8 @@ def check_propagate(ctx):
     if body is not None:
         recv = ctx.sites(body, R.call("Receiver::recv"), inst, exact=1)
         C02.check_error_absorbed(ctx, inst, body, recv, "first_error")
+        # a failure can only reach flush() from a worker that was asked: every round asks every worker (same rule as C02.ack/force_flush)
+        C02.check_all_workers(ctx, inst, body)
         oks = A.ok_nodes(body)
         edges = A.pred_edges(body, lambda e: bool(C02._names(body, e) & {"first_error"}), "None")
         R.guard(ctx, inst, body, oks, edges, "Ok(()) only when no worker reported an error")
